@@ -287,6 +287,33 @@ theorem rep_mem (B : List Int) (v : Int) :
 end Mappy.Versioning
 
 namespace Mappy.Versioning
+
+/-- finitely many points, one for every class: one below all bounds, every bound, every bound plus one thousandth -/
+def classPoints (B : List Int) : List Int := (B.foldl min 0 - 1) :: (B ++ B.map (· + 1))
+
+/-- **C09_points_exhaustive** — for EVERY list of bounds and EVERY version there is a point among the finitely many
+`classPoints` that lies on the same side of every bound: what holds at those points holds, as far as the filter can tell,
+at every version -/
+theorem C09_points_exhaustive (B : List Int) (v : Int) : ∃ r ∈ classPoints B, Agree B v r := by
+  rcases rep_mem B v with h | ⟨b, hb, h⟩ | h
+  · exact ⟨rep B v, by simp [classPoints, h], C09_representative B v⟩
+  · refine ⟨rep B v, ?_, C09_representative B v⟩
+    simp only [classPoints, List.mem_cons, List.mem_append, List.mem_map]
+    exact Or.inr (Or.inr ⟨b, hb, h.symm⟩)
+  · refine ⟨B.foldl min 0 - 1, by simp [classPoints], ?_⟩
+    intro b hb
+    have hA := C09_representative B v b hb
+    have hlt := h b hb
+    have hmin := (foldl_min_le 0 B).2 b hb
+    have hv : v < b := hA.1.mpr hlt
+    exact ⟨⟨fun _ => by omega, fun _ => hv⟩, ⟨fun hh => by omega, fun hh => by omega⟩⟩
+
+/-- the regenerated folder: 16 bounds (14 written, 2 defaults), 33 points -/
+example : (classPoints allBounds).length = 33 := by decide +kernel
+
+end Mappy.Versioning
+
+namespace Mappy.Versioning
 /-- non-vacuity: 7.65 and 7.7 lie between the same written bounds, 7.6 and 7.65 do not (7.6 is a bound) -/
 instance (B : List Int) (v w : Int) : Decidable (Agree B v w) := by unfold Agree SameSide; infer_instance
 example : Agree allBounds 7650 7700 ∧ ¬ Agree allBounds 7600 7650 := by decide +kernel
